@@ -10,12 +10,14 @@ def run(F, G, tier, seed):
     CG = CallGraph(F)
     L = Lexer(F)
     positions.run_locord(chk, G)
+    positions.run_idrange(chk, G)
     positions.run_newline(chk, L)
     positions.run_setpath(chk, F, CG)
     positions.run_xpath(chk, F, CG)
     positions.run_tcpos(chk, F)
     positions.run_gap(chk, F, CG)
     positions.run_nodepos(chk, F)
+    positions.run_typepos(chk, F)
     chk.assume("scanner positions are monotone within a parse and YYLLOC_DEFAULT is the standard one (read from parser.y)")
     return chk.finish(
         "Decides necessary conditions of well-formed positions that are visible in the code shape: location ranges of "
